@@ -3,12 +3,14 @@
    and every loop or recursion runs on explicit fuel, so "never panics" is a theorem about the
    outcome type and "never hangs" is structural (every model function is a structural
    fixpoint; the lexer's linear fuel is proved sufficient).
-   Partial: the theorems cover the lexer, every built-in filter, name resolution over data and
-   (C01a, C13) the compiler and the macro depth guard; that the model's error/fuel/panic
+   Partial: the theorems cover the lexer, every built-in filter, name resolution over data,
+   the whole compile path (no function of the expression parser, the tag parsers or the
+   document parser returns [Panic], for any configuration, loaders, fuel and input) and
+   (Props/C13.v) the macro depth guard; that the model's error/fuel/panic
    outcomes are the real code's is the correspondence run, which executes every generated
    case in the real engine under a stack limit and a deadline, in an isolated process for the
    crash-prone ones. Memory exhaustion and goroutine scheduling are outside the model. *)
-From PV Require Import Model.Lexer Model.Filters Model.Exec Spec.SpecWalk.
+From PV Require Import Lib.Outcome Model.Lexer Model.ParseExpr Model.ParseDoc Model.Filters Model.Exec Model.Api Spec.SpecWalk Spec.SpecNoPanic.
 From PV Require Import Tie.C01.
 Open Scope N_scope.
 
@@ -31,3 +33,91 @@ Theorem C01_walk_never_panics :
     walk se globals f st cur safe (map part_of steps) <> Panic site.
 Proof. exact tie_walk_never_panics. Qed.
 Print Assumptions C01_walk_never_panics.
+
+(* ---- the compile path never panics ---- *)
+
+Theorem C01_parse_expr_never_panics : forall (cfg : pcfg) (fuel : nat) (s : N),
+  (forall ts, parse_expression cfg fuel ts <> Panic s) /\
+  (forall ts, parse_relational cfg fuel ts <> Panic s) /\
+  (forall ts, parse_simple cfg fuel ts <> Panic s) /\
+  (forall acc ts, simple_loop cfg fuel acc ts <> Panic s) /\
+  (forall ts, parse_term cfg fuel ts <> Panic s) /\
+  (forall acc ts, term_loop cfg fuel acc ts <> Panic s) /\
+  (forall ts, parse_power cfg fuel ts <> Panic s) /\
+  (forall ts, parse_factor cfg fuel ts <> Panic s) /\
+  (forall ts, parse_filtered cfg fuel ts <> Panic s) /\
+  (forall ts, filter_loop cfg fuel ts <> Panic s) /\
+  (forall ts, parse_filter cfg fuel ts <> Panic s) /\
+  (forall ts, parse_var_or_lit cfg fuel ts <> Panic s) /\
+  (forall parts ts, var_loop cfg fuel parts ts <> Panic s) /\
+  (forall acc ts, args_loop cfg fuel acc ts <> Panic s) /\
+  (forall ts, parse_array cfg fuel ts <> Panic s) /\
+  (forall acc ts, array_loop cfg fuel acc ts <> Panic s).
+Proof. exact tie_parse_expr_never_panics. Qed.
+Print Assumptions C01_parse_expr_never_panics.
+
+Theorem C01_tag_args_never_panic : forall (cfg : pcfg) (fuel : nat) (ts : list token) (s : N),
+  pexpr cfg ts <> Panic s /\
+  pvarlit cfg ts <> Panic s /\
+  pexprs cfg fuel ts <> Panic s /\
+  with_pairs_new cfg fuel ts <> Panic s /\
+  with_pairs_old cfg fuel ts <> Panic s /\
+  include_pairs cfg fuel ts <> Panic s /\
+  macro_params cfg fuel ts <> Panic s /\
+  filter_tag_chain cfg fuel ts <> Panic s /\
+  cycle_args cfg fuel ts <> Panic s /\
+  (forall exported, import_list fuel exported ts <> Panic s).
+Proof. exact tie_tag_args_never_panic. Qed.
+Print Assumptions C01_tag_args_never_panic.
+
+Theorem C01_skippers_never_panic : forall (se : senv) (ts : list atok) (s : N),
+  (forall acc, end_args ts acc <> Panic s) /\
+  skip_to_close ts <> Panic s /\
+  (forall names, skip_until names ts <> Panic s) /\
+  (forall path g, fetch se path g <> Panic s).
+Proof. exact tie_skippers_never_panic. Qed.
+Print Assumptions C01_skippers_never_panic.
+
+Theorem C01_doc_parsers_never_panic : forall (se : senv) (fuel : nat) (s : N),
+  (forall level st ts, parse_elem se fuel level st ts <> Panic s) /\
+  (forall level names st ts, wrap_until se fuel level names st ts <> Panic s) /\
+  (forall level st ts, parse_tag se fuel level st ts <> Panic s) /\
+  (forall level impl args st ts, tag_parser se fuel level impl args st ts <> Panic s) /\
+  (forall level conds wrappers st ts, if_branches se fuel level conds wrappers st ts <> Panic s) /\
+  (forall st ts, parse_doc se fuel st ts <> Panic s).
+Proof. exact tie_doc_parsers_never_panic. Qed.
+Print Assumptions C01_doc_parsers_never_panic.
+
+Theorem C01_compile_never_panics :
+  forall (se : senv) (fuel : nat) (name : str) (isstr : bool) (src : str) (g : gstate) (s : N),
+    compile_src se fuel name isstr src g <> Panic s /\
+    compile_file se fuel name g <> Panic s.
+Proof. exact tie_compile_never_panics. Qed.
+Print Assumptions C01_compile_never_panics.
+
+Theorem C01_api_compile_never_panics : forall (w : world) (src : str) (s : N),
+  api_compile_only w src <> OPanic s.
+Proof. exact tie_api_compile_never_panics. Qed.
+Print Assumptions C01_api_compile_never_panics.
+
+(* Non-vacuity: the functions above do not answer Fuel or Unmod on everything. *)
+Example C01a_witness :
+  (* {% if a %}x{% endif %}{{ b|upper }} *)
+  is_ok (np_compile [123; 37; 32; 105; 102; 32; 97; 32; 37; 125; 120; 123; 37; 32; 101; 110; 100;
+                     105; 102; 32; 37; 125; 123; 123; 32; 98; 124; 117; 112; 112; 101; 114; 32;
+                     125; 125]) = true /\
+  (* {% foo %} : unknown tag *)
+  np_compile [123; 37; 32; 102; 111; 111; 32; 37; 125] = Err 2 /\
+  (* {{ a : not closed *)
+  np_compile [123; 123; 32; 97] = Err 2 /\
+  (* {% if %} : missing condition *)
+  np_compile [123; 37; 32; 105; 102; 32; 37; 125] = Err 2 /\
+  (* {{ a|nosuchfilter }} : unknown filter *)
+  np_compile [123; 123; 32; 97; 124; 110; 111; 115; 117; 99; 104; 102; 105; 108; 116; 101; 114;
+              32; 125; 125] = Err 2 /\
+  (* {% include "missing.tpl" %} : no loader has the file *)
+  np_compile [123; 37; 32; 105; 110; 99; 108; 117; 100; 101; 32; 34; 109; 105; 115; 115; 105;
+              110; 103; 46; 116; 112; 108; 34; 32; 37; 125] = Err 4 /\
+  (* {% endif %} : end tag without its opening tag *)
+  np_compile [123; 37; 32; 101; 110; 100; 105; 102; 32; 37; 125] = Err 2.
+Proof. exact tie_c01a_witness. Qed.
